@@ -226,4 +226,54 @@ theorem C35_counterexample_once : ¬ C35_full .repaired := by
 example : onceReorders .repaired init [.transmit ⟨1,0⟩, .transmit ⟨2,0⟩, .serviceTxPktsOnce [.err 111],
     .serviceTxPktsOnce [], .serviceTxPktsOnce []] = true := by decide
 
+/-! ## receive side (not part of the property's statement; the other half of the datagram stack) -/
+
+/-- **Receive side: every datagram handed over by the socket is in exactly one received packet, with
+its source, in arrival order** — every history of calls, every script of socket answers (transient and
+other errors, empty reads, close/reopen): the packets taken off `.rxPkts` so far followed by the packets
+still on it are exactly the non-empty datagrams received. -/
+theorem C35_rx_each_datagram_once (ops : List ROp) :
+    (rrun RxState.init ops).1.popped ++ (rrun RxState.init ops).1.rxPkts = (rrun RxState.init ops).1.taken :=
+  (rrun_inv ops RxState.init ⟨rfl, List.Sublist.refl _, by intro p hp; cases hp⟩).1
+
+/-- … and the messages handed on are a subsequence of those packets (order kept, none twice), all from
+sources that have a remote device. -/
+theorem C35_rx_messages_in_order (ops : List ROp) :
+    (rrun RxState.init ops).1.rxMsgs.Sublist (rrun RxState.init ops).1.popped ∧
+    ∀ p ∈ (rrun RxState.init ops).1.rxMsgs, (rrun RxState.init ops).1.remotes.contains p.dst = true :=
+  (rrun_inv ops RxState.init ⟨rfl, List.Sublist.refl _, by intro p hp; cases hp⟩).2
+
+/-- transient receive errors end the pass quietly (fix D13 is in the tree): nothing escapes -/
+theorem C35_rx_transient_errors_do_not_escape (env : List Recv) : ∀ (s : RxState),
+    (∀ r ∈ env, ∀ e, r = Recv.err e → e ∈ transientErrnos) → (rxLoop env s).2 = none := by
+  induction env with
+  | nil => intro s _; rfl
+  | cons r rest ih =>
+    intro s h
+    unfold rxLoop
+    cases r with
+    | dgram p => exact ih _ (fun r hr => h r (List.mem_cons_of_mem _ hr))
+    | empty src => rfl
+    | nothing => rfl
+    | err e =>
+      have := h (.err e) (by simp) e rfl
+      simp [this]
+
+/-- a pass takes everything that is there: `k` datagrams, then nothing more → `k` new packets in order -/
+theorem C35_rx_pass_takes_all (ds : List Pkt) (s : RxState) :
+    (rxLoop (ds.map Recv.dgram ++ [.nothing]) s).1.rxPkts = s.rxPkts ++ ds ∧
+    (rxLoop (ds.map Recv.dgram ++ [.nothing]) s).2 = none := by
+  induction ds generalizing s with
+  | nil => simp [rxLoop]
+  | cons d rest ih =>
+    simp only [List.map_cons, List.cons_append]
+    unfold rxLoop
+    obtain ⟨i1, i2⟩ := ih { s with rxPkts := s.rxPkts ++ [d], taken := s.taken ++ [d] }
+    exact ⟨by rw [i1]; simp, i2⟩
+
+example : (rrun RxState.init [.addRemote 1, .serviceReceives [.dgram ⟨5,1⟩, .dgram ⟨6,2⟩, .err 111, .dgram ⟨7,1⟩],
+    .serviceRxPkts, .serviceReceives [.dgram ⟨7,1⟩, .empty 1, .dgram ⟨8,1⟩], .serviceRxPkts]).1.rxMsgs
+    = [⟨5,1⟩, ⟨7,1⟩] := by decide
+
+
 end Ioflo.Gram
